@@ -23,6 +23,9 @@ class RemoveDebug(SuiteTransformer):
             return node.value
         return None
 
+    def is_debug_name(self, node):
+        return isinstance(node, ast.Name) and node.id == '__debug__'
+
     def can_remove(self, node):
         if not isinstance(node, ast.If):
             return False
@@ -30,13 +33,13 @@ class RemoveDebug(SuiteTransformer):
         if isinstance(node.test, ast.Name) and node.test.id == '__debug__':
             return True
 
-        if isinstance(node.test, ast.Compare) and len(node.test.ops) == 1 and isinstance(node.test.ops[0], ast.Is) and self.constant_value(node.test.comparators[0]) is True:
+        if isinstance(node.test, ast.Compare) and self.is_debug_name(node.test.left) and len(node.test.ops) == 1 and isinstance(node.test.ops[0], ast.Is) and self.constant_value(node.test.comparators[0]) is True:
             return True
 
-        if isinstance(node.test, ast.Compare) and len(node.test.ops) == 1 and isinstance(node.test.ops[0], ast.IsNot) and self.constant_value(node.test.comparators[0]) is False:
+        if isinstance(node.test, ast.Compare) and self.is_debug_name(node.test.left) and len(node.test.ops) == 1 and isinstance(node.test.ops[0], ast.IsNot) and self.constant_value(node.test.comparators[0]) is False:
             return True
 
-        if isinstance(node.test, ast.Compare) and len(node.test.ops) == 1 and isinstance(node.test.ops[0], ast.Eq) and self.constant_value(node.test.comparators[0]) is True:
+        if isinstance(node.test, ast.Compare) and self.is_debug_name(node.test.left) and len(node.test.ops) == 1 and isinstance(node.test.ops[0], ast.Eq) and self.constant_value(node.test.comparators[0]) is True:
             return True
 
         return False
